@@ -57,8 +57,8 @@ def generate(seed, tier):
         if k == "edfa":
             op = {"op": "edfa"}
             op.update(gen_field(rng))
-            if rng.random() < 0.004:
-                op["n"] = rng.choice([(1 << 17) + 5, (1 << 20) + 1])     # long records
+            if rng.random() < 0.002:
+                op["n"] = rng.choice([(1 << 17) + 5, (1 << 17) + 5, (1 << 20) + 1])     # long records
             op.update({"G": rng.choice([0, 0.0, 20, 40, rng.uniform(0, 40)]), "NF": rng.choice([3, 5.0, rng.uniform(3, 10)]),
                        "BWf": rng.choice([None, None, rng.uniform(0.05, 0.45), rng.uniform(0.05, 0.45)]),
                        "BWabs": rng.choice([None, 1e9, 4e9, 10e9]), "iso": rng.random() < 0.4, "seed": rng.getrandbits(31),
